@@ -3,7 +3,8 @@ import BsVerif.Model.Call
 /-!
 Line-protocol adapter of the C16 model (`BsVerif/Model/Call.lean`).  A session:
 
-  new <prog> <base> <entry> <fns> <bytes>   fns = `name:addr:types` (types `u1 s4 bool ptr char f64 pair` joined by `+`, `-` = none),
+  new <prog> <base> <entry> <fns> <reach> <bytes>   fns = `name:addr:size:types`, reach = `start:size` of the code every callable runs besides its own,
+                                            (fns: (types `u1 s4 bool ptr char f64 pair` joined by `+`, `-` = none),
                                             bytes = `start:hex` segments of text (global addresses)
   break <gaddr> | start <stop|exit|err> | continue <stop|exit|err> | fault <KIND> <n> | finish
   call <fn> <literals> <pc> <regs0> <page> <dorder> <eorder>
@@ -16,7 +17,8 @@ open BsVerif BsVerif.Proto BsVerif.Mem BsVerif.Call BsVerif.Gen.CallAbi
 structure St where
   base : Nat := 0
   entry : Nat := 0
-  fns : List (String × Nat × List Ty) := []
+  fns : List (String × Nat × Nat × List Ty) := []
+  helpers : List (Nat × Nat) := []           -- (absolute start, size) of code every callable executes besides its own
   segs : Array (Nat × Array Nat) := #[]      -- (absolute start, bytes)
   bps : List Bp := []                        -- breakpoints inside the text (absolute addresses)
   started : Bool := false
@@ -45,11 +47,18 @@ def parseTy : String → Option Ty
   | "pair" => some .other
   | _ => none
 
-def parseFn (tok : String) : Option (String × Nat × List Ty) :=
+def parseFn (tok : String) : Option (String × Nat × Nat × List Ty) :=
   match tok.splitOn ":" with
-  | [n, a, tys] =>
-    match hexNat? a, (if tys == "-" then some [] else (tys.splitOn "+").mapM parseTy) with
-    | some a, some tys => some (n, a, tys)
+  | [n, a, sz, tys] =>
+    match hexNat? a, hexNat? sz, (if tys == "-" then some [] else (tys.splitOn "+").mapM parseTy) with
+    | some a, some sz, some tys => some (n, a, sz, tys)
+    | _, _, _ => none
+  | _ => none
+
+def parseRange (tok : String) : Option (Nat × Nat) :=
+  match tok.splitOn ":" with
+  | [a, n] => match hexNat? a, hexNat? n with
+    | some a, some n => some (a, n)
     | _, _ => none
   | _ => none
 
@@ -153,11 +162,15 @@ def runCall (st : St) (name : String) (lits : List Lit) (pc : Nat) (regs0 : Arra
   let fails : Op → Nat → Bool := fun k i => match st.fault with
     | some (k', n) => k == k' && i + 1 == n
     | none => false
-  let W : World := ⟨fails, page, id⟩
+  let fnInfo := st.fns.find? (·.1 == name)
+  -- code the callee executes: its own function and the helpers, as the image has it
+  let ranges : List (Nat × Nat) := (match fnInfo with | some f => [(st.base + f.2.1, f.2.2.1)] | none => []) ++ st.helpers
+  let reach : List Nat := ranges.flatMap fun r => (List.range r.2).map (· + r.1)
+  let W : World := { fails := fails, mmapRes := page, callee := id, reach := reach, orig := baseCode st.segs }
   let d0 : Dbg := { t := { regs := r0, mem := mem0 }, bps := bps }
   let dorder := walkOrder bps (dobs.map OrdItem.addr)
   let eorder := walkOrder bps (eobs.map OrdItem.addr)
-  let fn := (st.fns.find? (·.1 == name)).map fun f => (st.base + f.2.1, f.2.2)
+  let fn := fnInfo.map fun f => (st.base + f.2.1, f.2.2.2)
   let (res, d) := callCmd W fn lits (st.base + pc) dorder eorder d0
   let cls := match res with
     | .ok _ => "ok" | .err e => showErr e | .panic => "panic"
@@ -166,15 +179,18 @@ def runCall (st : St) (name : String) (lits : List Lit) (pc : Nat) (regs0 : Arra
   let post := s!"{regsDiff r0 d.t.regs};{hex (peek d.t.mem (st.base + pc))};{mapped}"
   let fired := d.log.any evFailed
   let st' := { st with bps := d.bps.filter (fun b => st.bps.any (·.addr == b.addr)), fault := none,
-                       afterFault := st.afterFault || fired }
+                       afterFault := st.afterFault || fired || d.t.wild }
+  -- the callee ran into the debugger's own patch: where the thread ends up is not predictable
+  if d.t.wild then (st', "wild") else
   (st', s!"{cls} t={digest} post={post}")
 
 def step (st : St) : List String → St × String
-  | ["new", _prog, base, entry, fns, bytes] =>
-    match hexNat? base, hexNat? entry, decList? parseFn fns, decList? parseSeg bytes with
-    | some base, some entry, some fns, some segs =>
-      ({ base := base, entry := base + entry, fns := fns, segs := (segs.map fun s => (base + s.1, s.2)).toArray }, "ok")
-    | _, _, _, _ => ({}, "bad-op")
+  | ["new", _prog, base, entry, fns, helpers, bytes] =>
+    match hexNat? base, hexNat? entry, decList? parseFn fns, decList? parseRange helpers, decList? parseSeg bytes with
+    | some base, some entry, some fns, some helpers, some segs =>
+      ({ base := base, entry := base + entry, fns := fns, helpers := helpers.map fun h => (base + h.1, h.2),
+         segs := (segs.map fun s => (base + s.1, s.2)).toArray }, "ok")
+    | _, _, _, _, _ => ({}, "bad-op")
   | ["break", a] =>
     match hexNat? a with
     | some a =>
